@@ -236,7 +236,8 @@ pub fn mpath_std<T: Shape>(s: &mut [T], toks: &[&str]) -> String {
 
 
 // ---------------------------------------------------------------- iterators, sorting, pointers on the std mirror
-/// drive a double-ended exact-size iterator by a step string: F next, B next_back, L len, H size_hint
+/// drive a double-ended exact-size iterator by a step string: F next, B next_back, L len, H size_hint,
+/// N nth(1), Z nth(1000), R nth_back(1), T last(), C count()
 pub fn drive<I, X>(it: &mut I, steps: &str, mut show: impl FnMut(X, usize) -> String) -> String
 where I: DoubleEndedIterator<Item = X> + ExactSizeIterator {
     let mut out: Vec<String> = vec![]; let mut k = 0usize;
@@ -244,6 +245,12 @@ where I: DoubleEndedIterator<Item = X> + ExactSizeIterator {
         match c {
             'F' => out.push(match it.next() { Some(x) => { let s = format!("F{}", show(x, k)); k += 1; s } None => "Fnone".into() }),
             'B' => out.push(match it.next_back() { Some(x) => { let s = format!("B{}", show(x, k)); k += 1; s } None => "Bnone".into() }),
+            // adaptor-style consumption: nth / nth_back (in range and overshooting), last, count
+            'N' => out.push(match it.nth(1) { Some(x) => { let s = format!("N{}", show(x, k)); k += 1; s } None => "Nnone".into() }),
+            'Z' => out.push(match it.nth(1000) { Some(x) => { let s = format!("Z{}", show(x, k)); k += 1; s } None => "Znone".into() }),
+            'R' => out.push(match it.nth_back(1) { Some(x) => { let s = format!("R{}", show(x, k)); k += 1; s } None => "Rnone".into() }),
+            'T' => out.push(match it.by_ref().last() { Some(x) => { let s = format!("T{}", show(x, k)); k += 1; s } None => "Tnone".into() }),
+            'C' => out.push(format!("C{}", it.by_ref().count())),
             'L' => out.push(format!("L{}", it.len())),
             'H' => { let (lo, hi) = it.size_hint(); out.push(format!("H{}:{}", lo, hi.map(|x| x.to_string()).unwrap_or("inf".into()))) }
             _ => panic!("bad iterator step"),
